@@ -202,7 +202,7 @@ PLANS["C03"] = {
 FLOORS["C03"] = {"quick": [
     (">= 10^5 API calls, >= 10^4 returned errors, >= 50 tolerated panics outside the envelope (the hostile kernels do bite)",
      lambda o: o["counters"]["api_calls"] >= 10 ** 5 and o["counters"]["returned_err"] >= 10 ** 4 and o["counters"]["panics_outside_envelope_tolerated"] >= 50),
-    ("every compiled container pair used", lambda o: len(o["sets"]["container_pairs"]) >= 19),
+    ("every compiled container pair used", lambda o: len(o["sets"]["container_pairs"]) >= 22),
     (">= 10^8 windows checked by the sweep", lambda o: o["counters"]["windows_checked"] >= 10 ** 8),
 ]}
 FLOORS["C03"]["thorough"] = FLOORS["C03"]["quick"]
@@ -250,7 +250,7 @@ FLOORS["C05"] = {"quick": [
     (">= 10^7 destination pixels checked, >= 1000 erroring calls, >= 1000 zero-sized calls",
      lambda o: o["counters"]["destination_pixels_checked"] >= 10 ** 7 and o["counters"]["erroring_calls"] >= 1000 and o["counters"]["zero_sized_calls"] >= 1000),
     ("every compiled resize container pair, >= 20 alpha paths, >= 20 mapper paths, >= 20 change_type paths",
-     lambda o: len(o["sets"]["resize_container_pairs"]) >= 19 and len(o["sets"]["alpha_paths"]) >= 20 and len(o["sets"]["mapper_paths"]) >= 20 and len(o["sets"]["change_type_paths"]) >= 20),
+     lambda o: len(o["sets"]["resize_container_pairs"]) >= 22 and len(o["sets"]["alpha_paths"]) >= 20 and len(o["sets"]["mapper_paths"]) >= 20 and len(o["sets"]["change_type_paths"]) >= 20),
 ]}
 FLOORS["C05"]["thorough"] = FLOORS["C05"]["quick"]
 
@@ -265,17 +265,20 @@ PLANS["C13"] = {
     "thorough": [step("rel", "firv-views", 16000000, timeout=7200), step("asan", "firv-views", 3000000, timeout=7200), step("rel+rayon", "firv-views", 4000000, sub="threads", timeout=7200)],
 }
 FLOORS["C13"] = {"quick": [
-    ("every compiled container pair and >= 20 alpha paths used", lambda o: len(o["sets"]["container_pairs"]) >= 19 and len(o["sets"]["alpha_paths"]) >= 20),
+    ("every compiled container pair and >= 20 alpha paths used", lambda o: len(o["sets"]["container_pairs"]) >= 22 and len(o["sets"]["alpha_paths"]) >= 20),
 ]}
 FLOORS["C13"]["thorough"] = FLOORS["C13"]["quick"]
 
 PLANS["C14"] = {
-    "rule": "exhaustive: 7 view kinds (owned, slice over an oversized buffer, reference, cropped, nested-cropped, mutable cropped, nested "
-            "mutable) x all view sizes 0..=N x 0..=N (N=12 quick, 34 thorough) x placements x both axes x every (start, size, parts) with "
+    "rule": "exhaustive: 9 view kinds (owned, slice over an oversized buffer, reference, cropped, nested-cropped, mutable cropped, nested "
+            "mutable, and a user-defined view / mutable view that implement only the required trait methods so that every split is the trait's "
+            "default implementation) x all view sizes 0..=N x 0..=N (N=12 quick, 34 thorough) x placements x both axes x every (start, size, parts) with "
             "start 0..=extent+1, size 1..=extent+1, parts 1..=size+1, plus values near u32::MAX and split-of-split; parts are read through "
             "ImageView (identity tags) and, for mutable views, written ((index+1)<<20 added) and read back through the parent: every band "
             "pixel incremented exactly once by the right part, nothing else changed; the extents of the parts must be floor or ceil of "
-            "size/parts and add up to size (which parts are the bigger ones is not prescribed); long step: 1xN and Nx1 views with N up to 100 000 "
+            "size/parts and add up to size (which parts are the bigger ones is not prescribed); compositions on mutable parts: every part of a "
+            "mutable split is read through its ImageView side, split again read-only (both axes) and split again mutably (both axes, valid and "
+            "invalid requests), the sub-parts adding 1<<20: every band pixel must end up incremented exactly twice; long step: 1xN and Nx1 views with N up to 100 000 "
             "split into up to N parts (extent x parts beyond 2^32); interleave step: sibling mutable parts used alternately "
             "row by row (also under Miri in C03); non-trivial = every (kind, size, placement); distinct = distinct descriptor",
     "assumptions": ["NonZeroU32 arguments make size = 0 and parts = 0 unrepresentable"],
